@@ -298,3 +298,12 @@ brk('C02', 'parser.py', "    return Path(pathdef, current_pos=current_pos, tree_
 brk('C02', P, "                self._parse_path(segments[0], current_pos)", "                self._parse_path(segments[0], 0j)", 'start position ignored')
 brk('C02', 'parser.py', "    return Path(pathdef, current_pos=current_pos, tree_element=tree_element)", "    return Path(pathdef, tree_element=tree_element)", 'parse_path drops current_pos')
 ben('C02', 'parser.py', "    return Path(pathdef, current_pos=current_pos, tree_element=tree_element)", "    result = Path(pathdef, current_pos, tree_element=tree_element)\n    return result", 'positional current_pos')
+
+# ---------------------------------------------------------------- C11 R11.8 positions compared absolutely
+brk('C11', P, "        if np.isclose(point, self.start, rtol=0, atol=1e-6):\n            return 0.0", "        if np.isclose(point, self.start, atol=1e-6):\n            return 0.0", 'Line.point_to_t start shortcut with the default relative tolerance')
+brk('C11', P, "        elif np.isclose(point, self.end, rtol=0.0, atol=1e-6):\n            return 1.0\n\n        if self.rotation", "        elif np.isclose(point, self.end, rtol=1e-9, atol=1e-6):\n            return 1.0\n\n        if self.rotation", 'Arc.point_to_t end shortcut with a relative tolerance')
+ben('C11', P, "        if np.isclose(point, self.start, rtol=0, atol=1e-6):\n            return 0.0", "        if np.isclose(point - self.start, 0, atol=1e-6):\n            return 0.0", 'compare the difference with zero')
+
+# ---------------------------------------------------------------- C12 R12.6 (multi-parent scenarios)
+brk('C12', B, "                        if pair.bez1 == otherPair.bez1 or \\\n                                pair.bez2 == otherPair.bez2 or \\\n                                pair.bez1 == otherPair.bez2 or \\\n                                pair.bez2 == otherPair.bez1:", "                        if pair.t1 == otherPair.t1 or pair.t2 == otherPair.t2 or pair.t1 == otherPair.t2 or pair.t2 == otherPair.t1:", 'redundancy decided by mid parameters across curves')
+brk('C12', B, "                    if point not in approx_point_set:\n                        approx_point_set.append(point)", "                    if not approx_point_set:\n                        approx_point_set.append(point)", 'only the first crossing is ever reported')
